@@ -12,7 +12,13 @@
    user's callback runs INSIDE the serialize section and is split into its own
    steps (what it does, then its return), so other threads interleave with it.
    A history is any list of [pop]; a step whose guard is false changes nothing,
-   so "for all lists" covers exactly the interleavings the locks allow. *)
+   so "for all lists" covers exactly the interleavings the locks allow.
+
+   Since /repo 91744d5 pipe_reap re-queues itself while nni_pipe_start is still running for
+   the pipe (p_starting).  The model does not use that: the reaper may overtake the start
+   thread here, as it could in the pinned tree -- strictly MORE interleavings than the code
+   now has, so every theorem holds a fortiori (ocaml/drv_c14.ml follows the flag
+   C14_REAP_WAITS_START when it plays the `racestart` schedule). *)
 From Coq Require Import List Arith NArith Bool.
 Import ListNotations.
 
